@@ -109,12 +109,15 @@ def _run_one(args):
         E.STATS.solver_s = 0.0
         E.STATS.unknown = 0
         E.set_engine(E.Engine())
+        # cooperative deadline at branch points; SIGALRM only as a backstop for a stuck solver call
+        E.DEADLINE[0] = time.time() + cap
         signal.signal(signal.SIGALRM, _alarm)
-        signal.alarm(int(cap))
+        signal.alarm(int(cap * 3) + 30)
         try:
             r = mod.run_obligation(oid, params, tier)
         finally:
             signal.alarm(0)
+            E.DEADLINE[0] = None
         r.setdefault("queries", 0)
         r["queries"] = max(r["queries"], E.STATS.checks)
         r["solver_s"] = round(E.STATS.solver_s, 3)
@@ -145,6 +148,15 @@ def run_pool(modname, obligations, tier, cap, procs=None, progress=True):
             out.append(r)
             if progress and r["status"] not in ("holds", "twin_ok"):
                 print(f"  [{i + 1}/{len(args)}] {r['id']}: {r['status']} {r['detail'][:200]}", flush=True)
+    # an obligation that errored is re-run once in a fresh process (a worker's state may have been damaged by an
+    # asynchronous timeout in an earlier obligation); only a repeated error counts
+    byid = {a[1]: a for a in args}
+    for k, r in enumerate(out):
+        if r["status"] == "error":
+            with ctx.Pool(processes=1, maxtasksperchild=1) as pool:
+                r2 = pool.apply(_run_one, (byid[r["id"]],))
+            r2["retried_after_error"] = r["detail"][-300:]
+            out[k] = r2
     return out
 
 
